@@ -965,14 +965,27 @@ struct equal_n_fn
 };
 
 /// Equal when both ranges are interleaved and of the same type.
-/// GIL pixels are bitwise comparable, so memcmp is used. User-defined pixels that are not bitwise comparable need to provide an overload
+/// Pixels with integral channels are bitwise comparable, so memcmp is used. For any other channel type
+/// (e.g. floating point, where +0.0 == -0.0 and NaN != NaN) bitwise and value equality differ and the
+/// pixels are compared one by one. User-defined pixels that are not bitwise comparable need to provide an overload
 template<typename T, typename CS>
 struct equal_n_fn<pixel<T, CS> const*, pixel<T, CS> const*>
 {
     BOOST_FORCEINLINE
     bool operator()(pixel<T, CS> const* i1, std::ptrdiff_t n, pixel<T, CS> const* i2) const
     {
+        return apply(i1, n, i2, std::is_integral<T>());
+    }
+
+private:
+    static bool apply(pixel<T, CS> const* i1, std::ptrdiff_t n, pixel<T, CS> const* i2, std::true_type)
+    {
         return memcmp(i1, i2, n * sizeof(pixel<T, CS>)) == 0;
+    }
+
+    static bool apply(pixel<T, CS> const* i1, std::ptrdiff_t n, pixel<T, CS> const* i2, std::false_type)
+    {
+        return std::equal(i1, i1 + n, i2);
     }
 };
 
@@ -983,6 +996,7 @@ struct equal_n_fn<pixel<T, CS>*, pixel<T, CS>*>
 
 /// EqualPixels
 /// Equal when both ranges are planar pointers of the same type. memcmp is invoked for each channel plane
+/// of integral channels; other channel types are compared pixel by pixel.
 ///  User-defined channels that are not bitwise comparable need to provide an overload
 template<typename IC, typename CS>
 struct equal_n_fn<planar_pixel_iterator<IC, CS>, planar_pixel_iterator<IC, CS>>
@@ -990,8 +1004,13 @@ struct equal_n_fn<planar_pixel_iterator<IC, CS>, planar_pixel_iterator<IC, CS>>
     BOOST_FORCEINLINE
     bool operator()(planar_pixel_iterator<IC, CS> const i1, std::ptrdiff_t n, planar_pixel_iterator<IC, CS> const i2) const
     {
+        using channel_t = typename std::iterator_traits<IC>::value_type;
+        // only integral channels are bitwise comparable (+0.0 == -0.0, NaN != NaN)
+        if (!std::is_integral<channel_t>::value)
+            return std::equal(i1, i1 + n, i2);
+
         // FIXME: ptrdiff_t vs size_t
-        std::ptrdiff_t const byte_size = n * sizeof(typename std::iterator_traits<IC>::value_type);
+        std::ptrdiff_t const byte_size = n * sizeof(channel_t);
         for (std::ptrdiff_t i = 0; i < mp11::mp_size<CS>::value; ++i)
         {
             if (memcmp(dynamic_at_c(i1, i), dynamic_at_c(i2, i), byte_size) != 0)
